@@ -92,26 +92,33 @@ def _v3v2(ctx: Ctx, c: Collector) -> None:
     s = ctx.summ(qn)
     me, req = T.var(fi.params[0]), T.var(fi.params[1])
     fwd = [e for e in s.of_kind("call") if e.term[1] == ("attr", ("attr", me, "_out"), "send")]
+    is_step = T.canon_cmp("==", ("idx", req, T.const(0)), T.const("step"))
     pr = []
     if not fwd:
         pr.append("requests are not forwarded")
     else:
-        arg = fwd[-1].term[2][0]
-        is_step = T.canon_cmp("==", ("idx", req, T.const(0)), T.const("step"))
         trunc = [("idx", ("idx", req, T.const(1)), ("slice", lo, T.const(2), T.NONE)) for lo in (T.const(0), T.NONE)]
-        want_step = [("tuple", (T.const("step"), t, ("idx", req, T.const(2)))) for t in trunc] + [("bag", tuple(("elem", x, (), ()) for x in (T.const("step"), t, ("idx", req, T.const(2)))), "list") for t in trunc]
-        ok = False
-        for sub in T.subterms(arg):
-            if sub[0] in ("phi", "ifexp") and T.strip(sub[1]) == is_step and sub[2] in want_step and sub[3] == req:
-                ok = True
-        if not ok:
-            if any(T.contains(arg, ("idx", req, T.const(1))) and not any(T.contains(arg, t) for t in trunc) for _ in [0]):
-                pr.append("for `step` the positional arguments are not truncated to (time, inputs): max_advance reaches a pre-v3 simulator")
-            elif not T.contains(arg, is_step) and not any(T.contains(g, is_step) for g in fwd[-1].guards):
-                pr.append("`step` requests are not recognised")
-            else:
-                pr.append(f"forwarded request {T.show(arg)[:140]} is not ('step', args[0:2], kwargs) for step and the unchanged request otherwise")
-    c.add("feature", qn, "max_advance (v3): step forwards args[0:2]", VIOLATED if pr else DISCHARGED, "; ".join(pr), fi.loc)
+        want_step = [("tuple", (T.const("step"), t, ("idx", req, T.const(2)))) for t in trunc] + \
+                    [("bag", tuple(("elem", x, (), ()) for x in (T.const("step"), t, ("idx", req, T.const(2)))), "list") for t in trunc]
+        try:
+            for flag in (True, False):
+                fired = [e for e in fwd if boolfn.guards_hold_leaves(e.guards, {is_step: flag})]
+                if len(fired) != 1:
+                    pr.append(f"{'step' if flag else 'other'} requests are forwarded {len(fired)} times")
+                    continue
+                arg = boolfn.resolve_phi(unalias(fired[0].term[2][0], s, fi), {is_step: flag})
+                if flag and arg not in want_step:
+                    if T.contains(arg, ("idx", req, T.const(1))) and not any(T.contains(arg, t) for t in trunc):
+                        pr.append("for `step` the positional arguments are not truncated to (time, inputs): max_advance reaches a pre-v3 simulator")
+                    else:
+                        pr.append(f"for `step` the forwarded request is {T.show(arg)[:100]} instead of ('step', args[0:2], kwargs)")
+                if not flag and arg != req:
+                    pr.append(f"other requests are forwarded as {T.show(arg)[:80]} instead of unchanged")
+        except boolfn.NotBoolean as ex:
+            c.unk("feature", qn, "max_advance (v3): step forwards args[0:2]", f"condition not understood: {ex}", fi.loc)
+            pr = None
+    if pr is not None:
+        c.add("feature", qn, "max_advance (v3): step forwards args[0:2]", VIOLATED if pr else DISCHARGED, "; ".join(pr), fi.loc)
     qn = V3V2 + ".meta"
     fi = ctx.func(qn)
     s = ctx.summ(qn)
@@ -128,15 +135,24 @@ def _v2v1(ctx: Ctx, c: Collector) -> None:
     s = ctx.summ(qn)
     me, req = T.var(fi.params[0]), T.var(fi.params[1])
     is_sd = T.canon_cmp("==", ("idx", req, T.const(0)), T.const("setup_done"))
-    early = [r for r in s.returns if any(T.guard_term(g) == is_sd for g in r.guards)]
     fwd = [e for e in s.of_kind("call") if e.term[1] == ("attr", ("attr", me, "_out"), "send")]
     pr = []
-    if not early or early[0].term != T.NONE:
-        pr.append("`setup_done` is not answered locally (with None)")
-    if early and fwd and fwd[0].idx < early[0].idx:
-        pr.append("`setup_done` is forwarded before it is answered")
-    if not fwd or fwd[-1].term[2] != (req,):
-        pr.append("other requests are not forwarded unchanged")
+    try:
+        for flag in (True, False):
+            a = {is_sd: flag}
+            f = [e for e in fwd if boolfn.guards_hold_leaves(e.guards, a)]
+            r = [e for e in s.returns if boolfn.guards_hold_leaves(e.guards, a)]
+            if flag:
+                if f:
+                    pr.append("`setup_done` is forwarded to a simulator that does not know it")
+                if not r or boolfn.resolve_phi(r[0].term, a) != T.NONE:
+                    pr.append("`setup_done` is not answered locally (with None)")
+            else:
+                if len(f) != 1 or boolfn.resolve_phi(unalias(f[0].term[2][0], s, fi), a) != req:
+                    pr.append("other requests are not forwarded unchanged")
+    except boolfn.NotBoolean as ex:
+        c.unk("feature", qn, "setup_done (v2.2): answered locally, not forwarded", f"condition not understood: {ex}", fi.loc)
+        return
     c.add("feature", qn, "setup_done (v2.2): answered locally, not forwarded", VIOLATED if pr else DISCHARGED, "; ".join(pr), fi.loc)
 
 
@@ -238,17 +254,23 @@ def _gating(ctx: Ctx, c: Collector) -> None:
     ev = ctx.summ(EXTRACT)
     efi = ctx.func(EXTRACT)
     meta = T.var(efi.params[0])
-    parsed = [r.term for r in ev.returns if r.term[0] == "call"]
+    parsed = [r.term for r in ev.returns if r.term[0] in ("call", "bag") and T.contains(r.term, T.const("api_version"))]
     pr = []
     if expl is None or not parsed:
         pr.append("version parsers not found")
     else:
         HOLE = ("var", "<version string>")
-        a = T.replace(expl, {T.var("explicit_version_str"): HOLE})
-        b = T.replace(parsed[0], {("idx", meta, T.const("api_version")): HOLE})
+        def norm(x):
+            # list(<generator>) / [comprehension] / list(map(f, xs)) are the same collection
+            x = T.strip(x)
+            while x[0] == "call" and x[1] in (T.glob("list"), T.glob("tuple")) and len(x[2]) == 1:
+                x = x[2][0]
+            return T.alpha(x)
+        a = norm(T.replace(expl, {T.var("explicit_version_str"): HOLE}))
+        b = norm(T.replace(parsed[0], {("idx", meta, T.const("api_version")): HOLE}))
         if a != b:
             pr.append(f"the configured version is parsed as {T.show(a)} but the reported one as {T.show(b)}: equal version strings can compare unequal (or different ones equal)")
-        std = call(T.glob("list"), call(T.glob("map"), T.glob("int"), call(("attr", HOLE, "split"), T.const("."))))
+        std = T.alpha(("bag", (("elem", call(T.glob("int"), T.var("§m")), (), (("it", T.var("§m"), call(("attr", HOLE, "split"), T.const("."))),)),), "gen"))
         if b != std:
             pr.append(f"the reported version is parsed as {T.show(b)} instead of all dot-separated integers")
     c.add("versions", ADAPT, "configured and reported version are parsed alike", VIOLATED if pr else DISCHARGED, "; ".join(pr), loc)
@@ -258,7 +280,13 @@ def _versions(ctx: Ctx, c: Collector) -> None:
     fi = ctx.func(EXTRACT)
     s = ctx.summ(EXTRACT)
     meta = T.var(fi.params[0])
-    ok = any(r.term == ("bag", (("elem", T.const(1), (), ()),), "list") and guard_terms(r.guards) == [("cmp", "notin", T.const("api_version"), meta)] for r in s.returns)
+    one = ("bag", (("elem", T.const(1), (), ()),), "list")
+    have = ("cmp", "in", T.const("api_version"), meta)
+    try:
+        ok = any(boolfn.guards_hold_leaves(r.guards, {have: False}) and r.term == one for r in s.returns) and \
+            not any(boolfn.guards_hold_leaves(r.guards, {have: True}) and r.term == one for r in s.returns)
+    except boolfn.NotBoolean:
+        ok = False
     c.check(ok, "versions", EXTRACT, "missing api_version means [1]", "a meta without api_version is not treated as version 1", fi.loc)
 
 
@@ -275,7 +303,11 @@ def _local_init(ctx: Ctx, c: Collector) -> None:
         pr.append("time_resolution is never removed for simulators whose init() cannot take it")
     else:
         d = dels[0]
-        if guard_terms(d.guards) != [("not", comp)]:
+        try:
+            okd = boolfn.guards_hold_leaves(d.guards, {comp: False}) and not boolfn.guards_hold_leaves(d.guards, {comp: True})
+        except boolfn.NotBoolean:
+            okd = False
+        if not okd:
             pr.append(f"time_resolution is removed under {[T.show(x) for x in guard_terms(d.guards)]} instead of exactly when check_api_compliance fails")
         if sends and sends[0].idx < d.idx:
             pr.append("init is sent before time_resolution is removed")
